@@ -63,7 +63,12 @@ template <> bool at<bool>(Buf<bool> &b, size_t i) { return b.b[i]; }
 
 template <typename T> struct Runner {
     Ctx &c; nix::DataType dt; nix::Compression comp; long variant; bool calibrate;
-    nix::File f; nix::Block b; nix::DataArray a;
+    nix::File f; nix::Block b;
+    // two handles of the same array, each looked up once per session and kept on the heap (never copied or assigned: a handle
+    // object may remember things): calls alternate between them, and after every call both must show the same array
+    std::shared_ptr<nix::DataArray> h[2]; int cur = 0;
+    nix::DataArray &A() { return *h[cur]; }
+    void lookUp() { h[0] = std::make_shared<nix::DataArray>(b.getDataArray("a")); h[1] = std::make_shared<nix::DataArray>(f.getBlock(0).getDataArray(0)); }
     State st;
     long evals = 0;
     std::string why;
@@ -71,7 +76,7 @@ template <typename T> struct Runner {
     void openNew(size_t R) {
         f = nix::File::open(c.path("data.nix"), nix::FileMode::Overwrite, "hdf5", comp == nix::Compression::Auto ? nix::Compression::DeflateNormal : nix::Compression::None);
         b = f.createBlock("b", "t");
-        a = b.createDataArray("a", "t", dt, nix::NDSize(R, 1), comp);
+        b.createDataArray("a", "t", dt, nix::NDSize(R, 1), comp); lookUp();
         st = State(); st.ext = Idx(R, 1);
         for (auto &i : rowMajor(Idx(R, 0), st.ext)) st.cells[i] = 0;
     }
@@ -92,15 +97,23 @@ template <typename T> struct Runner {
     }
 
     bool observe(bool subregions) {
-        nix::NDSize e = a.dataExtent();
+        if (!observe1(subregions)) return false;
+        cur = 1 - cur;
+        bool okOther = observe1(false);
+        cur = 1 - cur;
+        if (!okOther) { why = "through the other handle of the array: " + why; return false; }
+        return true;
+    }
+    bool observe1(bool subregions) {
+        nix::NDSize e = A().dataExtent();
         if (e.size() != st.ext.size()) { why = "rank changed"; return false; }
         for (size_t j = 0; j < e.size(); j++) if ((long) e[j] != st.ext[j]) { why = "extent differs: got " + json(std::vector<long>(e.begin(), e.end())).dump() + " want " + json(st.ext).dump(); return false; }
-        if (a.dataType() != dt) { why = "element type changed"; return false; }
+        if (A().dataType() != dt) { why = "element type changed"; return false; }
         size_t R = st.ext.size();
-        auto raw = [&](Buf<T> &bf, const nix::NDSize &cn, const nix::NDSize &of) { a.getDataDirect(dt, bf.p(), cn, of); };
+        auto raw = [&](Buf<T> &bf, const nix::NDSize &cn, const nix::NDSize &of) { A().getDataDirect(dt, bf.p(), cn, of); };
         if (!checkRegion(Idx(R, 0), st.ext, "getDataDirect(whole)", raw)) return false;
         bool cal = !st.poly.empty() || st.hasOrigin;
-        if (!cal) { auto viaGet = [&](Buf<T> &bf, const nix::NDSize &cn, const nix::NDSize &of) { a.getData(dt, bf.p(), cn, of); };
+        if (!cal) { auto viaGet = [&](Buf<T> &bf, const nix::NDSize &cn, const nix::NDSize &of) { A().getData(dt, bf.p(), cn, of); };
                     if (!checkRegion(Idx(R, 0), st.ext, "getData(whole)", viaGet)) return false; }
         if (subregions) {
             // every rectangular sub-region
@@ -112,15 +125,15 @@ template <typename T> struct Runner {
             }
         }
         // calibration attributes read back
-        if (a.polynomCoefficients() != st.poly) { why = "polynomCoefficients differ"; return false; }
-        boost::optional<double> og = a.expansionOrigin();
+        if (A().polynomCoefficients() != st.poly) { why = "polynomCoefficients differ"; return false; }
+        boost::optional<double> og = A().expansionOrigin();
         if ((bool) og != st.hasOrigin || (og && *og != st.origin)) { why = "expansionOrigin differs"; return false; }
         // calibrated and cross-type reads (numeric types)
         if (calibrate) {
             std::vector<Idx> ix = rowMajor(Idx(R, 0), st.ext);
             std::vector<double> got(ix.size(), -777.0);
             std::string w;
-            if (outcome([&] { a.getData(nix::DataType::Double, got.data(), nd(st.ext), nix::NDSize(R, 0)); }, &w) != "ok") { why = "getData(Double) threw: " + w; return false; }
+            if (outcome([&] { A().getData(nix::DataType::Double, got.data(), nd(st.ext), nix::NDSize(R, 0)); }, &w) != "ok") { why = "getData(Double) threw: " + w; return false; }
             evals++;
             for (size_t q = 0; q < ix.size(); q++) {
                 double x = Conv<T>::asDouble(st.cells.at(ix[q]), variant);
@@ -134,9 +147,9 @@ template <typename T> struct Runner {
             }
             // as Int64 and Int32 (values are integral for the integer dictionaries; otherwise truncation of the double)
             std::vector<int64_t> g64(ix.size(), -777);
-            if (outcome([&] { a.getData(nix::DataType::Int64, g64.data(), nd(st.ext), nix::NDSize(R, 0)); }, &w) != "ok") { why = "getData(Int64) threw: " + w; return false; }
+            if (outcome([&] { A().getData(nix::DataType::Int64, g64.data(), nd(st.ext), nix::NDSize(R, 0)); }, &w) != "ok") { why = "getData(Int64) threw: " + w; return false; }
             std::vector<int32_t> g32(ix.size(), -777);
-            if (outcome([&] { a.getData(nix::DataType::Int32, g32.data(), nd(st.ext), nix::NDSize(R, 0)); }, &w) != "ok") { why = "getData(Int32) threw: " + w; return false; }
+            if (outcome([&] { A().getData(nix::DataType::Int32, g32.data(), nd(st.ext), nix::NDSize(R, 0)); }, &w) != "ok") { why = "getData(Int32) threw: " + w; return false; }
             evals += 2;
             for (size_t q = 0; q < ix.size(); q++) {
                 double wantd = got[q];
@@ -157,7 +170,7 @@ template <typename T> struct Runner {
             Idx off = toIdx(g["off"]), cnt = toIdx(g["cnt"]);
             std::vector<Idx> ix = rowMajor(off, cnt);
             Buf<T> buf; fill(buf, ix, k, variant);
-            std::string o = outcome([&] { a.setData(dt, buf.p(), nd(cnt), nd(off)); }, &w);
+            std::string o = outcome([&] { A().setData(dt, buf.p(), nd(cnt), nd(off)); }, &w);
             if (s["res"] == "ok") for (auto &i : ix) st.cells[i] = stampOf(k, i);
             return o;
         }
@@ -165,7 +178,7 @@ template <typename T> struct Runner {
             Idx e = toIdx(g["e"]);
             std::vector<Idx> ix = rowMajor(Idx(R, 0), e);
             Buf<T> buf; fill(buf, ix, k, variant);
-            std::string o = outcome([&] { a.dataExtent(nd(e)); a.setData(dt, buf.p(), nd(e), nix::NDSize(R, 0)); }, &w);
+            std::string o = outcome([&] { A().dataExtent(nd(e)); A().setData(dt, buf.p(), nd(e), nix::NDSize(R, 0)); }, &w);
             st.ext = e; st.cells.clear(); for (auto &i : ix) st.cells[i] = stampOf(k, i);
             return o;
         }
@@ -181,7 +194,7 @@ template <typename T> struct Runner {
             }
             std::vector<Idx> ix = rowMajor(off, cnt);
             Buf<T> buf; fill(buf, ix, k, variant);
-            std::string o = outcome([&] { a.appendData(dt, buf.p(), nd(cnt), axis); }, &w);
+            std::string o = outcome([&] { A().appendData(dt, buf.p(), nd(cnt), axis); }, &w);
             if (act == "Append") {
                 std::map<Idx, long> nc = st.cells; for (auto &i : ix) nc[i] = stampOf(k, i);
                 st.cells = nc; st.ext[axis] += n;
@@ -190,23 +203,23 @@ template <typename T> struct Runner {
         }
         if (act == "SetExtent") {
             Idx e = toIdx(g["e"]);
-            std::string o = outcome([&] { a.dataExtent(nd(e)); }, &w);
+            std::string o = outcome([&] { A().dataExtent(nd(e)); }, &w);
             std::map<Idx, long> nc; for (auto &i : rowMajor(Idx(R, 0), e)) { auto it = st.cells.find(i); nc[i] = it == st.cells.end() ? 0 : it->second; }
             st.cells = nc; st.ext = e;
             return o;
         }
         if (act == "SetPoly") {
             std::vector<double> p; for (auto &x : g["p"]) p.push_back(x.get<double>());
-            std::string o = outcome([&] { if (p.empty()) a.polynomCoefficients(nix::none); else a.polynomCoefficients(p); }, &w);
+            std::string o = outcome([&] { if (p.empty()) A().polynomCoefficients(nix::none); else A().polynomCoefficients(p); }, &w);
             st.poly = p; return o;
         }
         if (act == "SetOrigin") {
             long ov = g["o"];
-            std::string o = outcome([&] { if (ov == -1) a.expansionOrigin(nix::none); else a.expansionOrigin((double) ov); }, &w);
+            std::string o = outcome([&] { if (ov == -1) A().expansionOrigin(nix::none); else A().expansionOrigin((double) ov); }, &w);
             st.hasOrigin = ov != -1; st.origin = (double) ov; return o;
         }
         if (act == "Reopen") {
-            return outcome([&] { f.close(); f = nix::File::open(c.path("data.nix"), (k % 2) ? nix::FileMode::ReadWrite : nix::FileMode::ReadOnly); b = f.getBlock("b"); a = b.getDataArray("a"); }, &w);
+            return outcome([&] { f.close(); f = nix::File::open(c.path("data.nix"), (k % 2) ? nix::FileMode::ReadWrite : nix::FileMode::ReadOnly); b = f.getBlock("b"); lookUp(); }, &w);
         }
         if (act == "ViewWrite" || act == "ViewRead") {
             Idx woff = toIdx(g["woff"]), wcnt = toIdx(g["wcnt"]), off = toIdx(g["off"]), cnt = toIdx(g["cnt"]);
@@ -215,7 +228,7 @@ template <typename T> struct Runner {
             Buf<T> buf;
             bool dataOk = true;
             std::string o = outcome([&] {
-                nix::DataView dv(a, nd(wcnt), nd(woff));
+                nix::DataView dv(A(), nd(wcnt), nd(woff));
                 if (act == "ViewWrite") { fill(buf, ix, k, variant); dv.setData(dt, buf.p(), nd(cnt), nd(off)); }
                 else { alloc(buf, ix.size()); dv.getData(dt, buf.p(), nd(cnt), nd(off));
                        for (size_t q = 0; q < ix.size(); q++) if (!(at(buf, q) == Conv<T>::enc(st.cells.at(ix[q]), variant))) dataOk = false; }
@@ -237,9 +250,12 @@ template <typename T> struct Runner {
             bool last = i + 1 == all.size();
             // Reopen in ReadOnly must be followed by a ReadWrite reopen before the next mutation: reopen rw when needed
             if (all[i]["a"] != "Reopen" && all[i]["a"] != "ViewRead" && f.fileMode() == nix::FileMode::ReadOnly) {
-                f.close(); f = nix::File::open(c.path("data.nix"), nix::FileMode::ReadWrite); b = f.getBlock("b"); a = b.getDataArray("a");
+                f.close(); f = nix::File::open(c.path("data.nix"), nix::FileMode::ReadWrite); b = f.getBlock("b"); lookUp();
             }
+            cur = (int) (i % 3 == 1);          // every third call goes through the second handle
             std::string r = step(all[i], (long) i + 1);
+            if (!last) { try { nix::DataArray &o = *h[1 - cur]; nix::NDSize e = o.dataExtent(); (void) o.polynomCoefficients(); (void) o.expansionOrigin();
+                               if (e.size() > 0 && e.nelms() > 0 && e.nelms() < 64) { Buf<T> bf; alloc(bf, (size_t) e.nelms()); o.getDataDirect(dt, bf.p(), e, nix::NDSize(e.size(), 0)); } } catch (...) {} }
             if (r != all[i]["res"].get<std::string>()) {
                 if (!last) { result = json{{"v", "unjudgeable"}, {"what", "prefix step outcome differs"}, {"step", all[i]}, {"observed", r}}; break; }
                 result = mismatch("outcome", all[i]["res"], r); result["why"] = why; break;
